@@ -124,6 +124,55 @@ func TestNamespace(t *testing.T) {
 				}
 			}
 		}
+		// (B'') an event carrying SEVERAL links of which only a later (or only the first) one names a namespace - a
+		// workflow-event link without a namespace and a batch-job link stand in front of / behind it: serialized on
+		// every blob path, and inline wherever the root holds history events directly
+		multi := func(af protoreflect.FieldDescriptor, order int) *historypb.HistoryEvent {
+			e := &historypb.HistoryEvent{EventId: 5}
+			e.ProtoReflect().Set(af, protoreflect.ValueOfMessage(e.ProtoReflect().NewField(af).Message()))
+			fixType(e)
+			empty := &commonpb.Link{Variant: &commonpb.Link_WorkflowEvent_{WorkflowEvent: &commonpb.Link_WorkflowEvent{WorkflowId: "wf0", RunId: "run0"}}}
+			job := &commonpb.Link{Variant: &commonpb.Link_BatchJob_{BatchJob: &commonpb.Link_BatchJob{JobId: "job"}}}
+			named := &commonpb.Link{Variant: &commonpb.Link_WorkflowEvent_{WorkflowEvent: &commonpb.Link_WorkflowEvent{Namespace: src, WorkflowId: "wf", RunId: "run"}}}
+			switch order {
+			case 0:
+				e.Links = []*commonpb.Link{empty, job, named}
+			case 1:
+				e.Links = []*commonpb.Link{named, job, empty}
+			default:
+				e.Links = []*commonpb.Link{job, empty, named, empty}
+			}
+			return e
+		}
+		inlinePaths := gen.EnumeratePaths(r.md, func(f protoreflect.FieldDescriptor) bool {
+			return f.IsList() && f.Message() != nil && f.Message().FullName() == "temporal.api.history.v1.HistoryEvent"
+		}, 2, 14, 100000)
+		for ai, af := range gen.AttrFields {
+			for order := 0; order < 3; order++ {
+				for bi, bp := range blobPaths {
+					if !rec.Thorough() && (bi+ai+order)%3 != 0 {
+						continue
+					}
+					msg := gen.New(r.md)
+					parent, f := gen.Descend(msg, bp)
+					blob := gen.EncodeEvents([]*historypb.HistoryEvent{multi(af, order)})
+					if f.IsList() {
+						parent.Mutable(f).List().Append(protoreflect.ValueOfMessage(blob.ProtoReflect()))
+					} else {
+						parent.Set(f, protoreflect.ValueOfMessage(blob.ProtoReflect()))
+					}
+					counts["blob_multi_link_cases"]++
+					viol = append(viol, checkNS(tr, r, msg, fmt.Sprintf("blob %s, one %s event with several links (order %d), one of them naming a namespace", bp.String(), af.Name(), order))...)
+				}
+				for _, ip := range inlinePaths {
+					msg := gen.New(r.md)
+					parent, f := gen.Descend(msg, ip)
+					parent.Mutable(f).List().Append(protoreflect.ValueOfMessage(multi(af, order).ProtoReflect()))
+					counts["inline_multi_link_cases"]++
+					viol = append(viol, checkNS(tr, r, msg, fmt.Sprintf("inline %s, one %s event with several links (order %d), one of them naming a namespace", ip.String(), af.Name(), order))...)
+				}
+			}
+		}
 		for _, bp := range blobPaths {
 			for ei, ep := range evPaths {
 				ev := &historypb.HistoryEvent{EventId: 7}
